@@ -431,6 +431,7 @@ type FuncContract struct {
 	Ghost     []string // free-form directives understood by the executor
 	Implements string  // name of the fnfield contract a closure implements
 	ImplDecl   string  // as declared (Implements is cleared once merged)
+	Decreases  *Clause // termination measure (recursion)
 	Props     []string // property ids this function is listed under
 	File      string
 	Line      int
@@ -629,6 +630,16 @@ func (cs *Contracts) LoadContractFile(path, pkg string, assumedFile bool) error 
 			}
 			cs.Funcs[key] = fc
 			cur = fc
+		case "decreases":
+			// termination measure of a recursive function: non-negative at entry, strictly smaller at every recursive call
+			if cur == nil {
+				return fail(fmt.Errorf("decreases outside func"))
+			}
+			c, err := clause(rest)
+			if err != nil {
+				return fail(err)
+			}
+			cur.Decreases = &c
 		case "requires", "ensures":
 			if cur == nil {
 				return fail(fmt.Errorf("%s outside func", word))
